@@ -33,6 +33,7 @@ V(i, x) == [idx |-> i, val |-> x]
 Names == {"v1", "v2"}
 Other(n) == IF n = "v1" THEN "v2" ELSE "v1"
 
+NWit == 6          \* number of witness conditions (section "behaviour export")
 VARIABLES vv, hist
 vars == <<vv, hist>>
 
@@ -66,6 +67,7 @@ Step(op, d, i, x, how, s2) ==
              ELSE Append(hist, [op |-> op, d |-> d, i |-> i, x |-> x, how |-> how, exp |-> ObsOf(s2)])
 
 Init == /\ vv = [v1 |-> V(0, 0), v2 |-> V(0, 0)]      \* default construction: first alternative, value-initialised
+        /\ \A i \in 1..NWit : TLCSet(i, 0)
         /\ hist = IF Hist THEN <<[op |-> "init", d |-> "", i |-> 0, x |-> 0, how |-> "", exp |-> ObsOf(vv)]>> ELSE <<>>
 
 \* d = T_i(x)   (converting assignment; from an lvalue, an rvalue, or -- for the string -- a const char* )
@@ -103,10 +105,15 @@ Property == OneAlternative /\ AnyOnlyString /\ OrderTotal
 (* ---- behaviour export ---------------------------------------------------- *)
 EmitAll == (Hist /\ Len(hist) = Depth + 1) => PrintT(<<"BEH", ToJson([steps |-> hist])>>)
 Last == hist[Len(hist)]
-Wit(w) == (Hist /\ Len(hist) > 1 /\ w) => (PrintT(<<"BEH", ToJson([steps |-> hist])>>) /\ FALSE)
-WitMoveTracked   == Wit(Last.op = "Move" /\ vv[Last.d].idx = 2 /\ vv[Other(Last.d)].val = MOVED)
-WitMoveString    == Wit(Last.op = "Move" /\ vv[Other(Last.d)].val = ANY)
-WitReplaceTracked == Wit(Last.op \in {"AssignVal", "Emplace"} /\ Len(hist) > 2 /\ hist[Len(hist) - 1].exp.live = 2 /\ Last.exp.live = 1)
-WitSwapDifferent == Wit(Last.op = "Swap" /\ vv.v1.idx = 2 /\ vv.v2.idx = 1)
-WitCopyAny       == Wit(Last.op = "Copy" /\ vv[Last.d].val = ANY)
+HasLast == Hist /\ Len(hist) > 1
+\* rare conditions that must be in the replay set of every run: each is reported once (per worker)
+\* from the path-enumeration run itself; the check is broken if one of them is never reported
+Wits == <<
+  <<"MoveTracked", HasLast /\ Last.op = "Move" /\ vv[Last.d].idx = 2 /\ vv[Other(Last.d)].val = MOVED>>,
+  <<"MoveString", HasLast /\ Last.op = "Move" /\ vv[Other(Last.d)].val = ANY>>,
+  <<"ReplaceTracked", HasLast /\ Last.op \in {"AssignVal", "Emplace"} /\ Len(hist) > 2 /\ hist[Len(hist) - 1].exp.live = 2 /\ Last.exp.live = 1>>,
+  <<"SwapDifferent", HasLast /\ Last.op = "Swap" /\ vv.v1.idx = 2 /\ vv.v2.idx = 1>>,
+  <<"CopyAny", HasLast /\ Last.op = "Copy" /\ vv[Last.d].val = ANY>>,
+  <<"SameIndexAssign", HasLast /\ Last.op = "AssignVal" /\ Len(hist) > 2 /\ hist[Len(hist) - 1].exp[Last.d].idx = Last.i /\ Last.i = 2>> >>
+WitAll == \A i \in 1..NWit : (Wits[i][2] /\ TLCGet(i) = 0) => (PrintT(<<"WIT", Wits[i][1]>>) /\ TLCSet(i, 1))
 =============================================================================
